@@ -21,8 +21,8 @@ Oracle (independent account, per channel and direction S -> R):
     application did not close first (R stops replenishing once it has closed, which is legitimate)
                                                            -> `stream-incomplete-at-quiescence`
 Re-entrancy: in half of the cases the channel's startWriting() hook synchronously calls write /
-writeExtended / loseConnection (a producer that produces the moment it is resumed) and the
-stopWriting() hook may call loseConnection; the model records each call when it happens, so the
+writeExtended / loseConnection (a producer that produces the moment it is resumed) and so
+does the stopWriting() hook; the model records each call when it happens, so the
 oracle is unchanged ("written in order" = order of the calls).
 False-alarm guards: nothing is asserted about how writes are split into messages or about the timing
 of WINDOW_ADJUST; the application never writes after its own loseConnection(); completeness is only
@@ -33,6 +33,13 @@ Narrow keys for defects of the unchanged tree:
   `ssh-close-before-second-ext-buffer` - CLOSE emitted in the middle of the extended-data flush of a
       WINDOW_ADJUST: close had been requested, the adjust already sent some buffered extended data,
       no normal data is unsent, and extended data (a later buffered entry) is still unsent at the CLOSE.
+  `window-overrun-from-stopwriting-hook` - a data message exceeds the granted window and, within the
+      same top-level step, this channel's stopWriting() hook had sent data (the hook saw a window that
+      the interrupted write() was about to use).
+  `ext-flush-stopwriting-hook-write-overtakes-pending-entries` - an extended-data stream is sent out
+      of order while a WINDOW_ADJUST is being processed for that channel and the channel's
+      stopWriting() hook wrote data during that same adjust (the flush keeps the not-yet-flushed
+      entries in a local list, so re-entrant writes are queued ahead of them).
   `receiver-window-1-never-replenished` - a stream is incomplete at quiescence, the receiver's
       advertised window size is 1 and the sender has used up everything it was granted (such a
       receiver never replenishes on its own: `localWindowLeft < localWindowSize // 2` is `x < 0`).
@@ -54,11 +61,14 @@ ASSUMPTIONS = ["trusted base: the stub transport delivers messages FIFO per dire
 SHARDS = {"quick": 4, "thorough": 16}
 FLOORS = {"data_messages_checked": 5000, "window_adjusts_delivered": 500, "close_messages_checked": 200,
           "streams_complete_at_quiescence": 500, "writes_buffered": 500, "bytes_received": 100000,
-          "hook_actions_start_write": 50, "hook_actions_start_close": 10}
+          "hook_actions_start_write": 50, "hook_actions_start_close": 10, "hook_actions_stop_write": 50,
+          "hook_actions_stop_ext": 50}
 READY = True
 
 KNOWN_EXT = "ssh-close-before-second-ext-buffer"
 KNOWN_W1 = "receiver-window-1-never-replenished"
+KNOWN_STOP = "window-overrun-from-stopwriting-hook"
+KNOWN_FLUSH = "ext-flush-stopwriting-hook-write-overtakes-pending-entries"
 
 WINDOWS = (1, 2, 3, 5, 16, 100, 1000, 32768, 131072, 1048576)
 PACKETS = (1, 2, 3, 7, 64, 1000, 32768)
@@ -163,6 +173,8 @@ class World:
         # scripted re-entrant application behaviour: what the channel's startWriting()/stopWriting()
         # hook does, synchronously, the next times it is called
         self.hooks = {}
+        self.in_stop_hook = []  # stack of (idx, side) whose stopWriting() hook is running
+        self.stop_hook_sent = set()  # (idx, side) whose stopWriting() hook sent data during the current top-level step
         for idx, side, kind, action in hooks:
             self.hooks.setdefault((idx, side, kind), []).append(tuple(action))
         self.sizes = sizes
@@ -226,14 +238,26 @@ class World:
             w = {"channel": cid, "sender": side, "stream": stream, "message_len": len(body), "window_available": d.window, "max_packet": d.maxpkt}
             if len(body) > d.maxpkt:
                 self.problem("data-exceeds-max-packet", "a data message is larger than the peer's maximum packet size", w)
+            if (cid, side) in self.in_stop_hook:
+                self.stop_hook_sent.add((cid, side))
             if len(body) > d.window:
-                self.problem("data-exceeds-window", "a data message exceeds the window the peer has granted so far", w)
+                if (cid, side) in self.stop_hook_sent:
+                    self.problem(KNOWN_STOP, "the stopWriting() hook runs before the window used by the interrupted write is accounted for: "
+                                 "data written from the hook plus the interrupted write exceed the peer's window", w)
+                else:
+                    self.problem("data-exceeds-window", "a data message exceeds the window the peer has granted so far", w)
             d.window -= len(body)
             if d.close_sent:
                 self.problem("data-after-close", "data message sent after CHANNEL_CLOSE", w)
             d.sent[stream] += body
             if d.written[stream][:len(d.sent[stream])] != d.sent[stream]:
-                self.problem("sent-not-prefix-of-written", "bytes sent on a stream are not a prefix of what the application wrote", w)
+                ia = self.in_adjust
+                if stream and ia is not None and ia[:2] == (cid, side) and self.stop_hook_wrote_in_adjust:
+                    self.ctx.count("known_" + KNOWN_FLUSH)
+                    self.problem(KNOWN_FLUSH, "while a window adjust flushes the buffered extended-data entries, data written from the stopWriting() "
+                                 "hook is queued ahead of the entries not yet flushed (same stream out of order)", w)
+                else:
+                    self.problem("sent-not-prefix-of-written", "bytes sent on a stream are not a prefix of what the application wrote", w)
                 d.broken = True
         elif num == 93:
             cid, n = struct.unpack(">2L", payload[:8])
@@ -273,6 +297,8 @@ class World:
 
     # ---- actions ---------------------------------------------------------------------------
     def deliver(self, src):
+        self.stop_hook_sent.clear()
+        self.stop_hook_wrote_in_adjust = False
         num, payload = self.stub[src].q.pop(0)
         dst = self.peer(src)
         if num == 93:
@@ -305,6 +331,7 @@ class World:
         return n
 
     def apply(self, act):
+        self.stop_hook_sent.clear()
         kind = act[0]
         if kind == "deliver":
             if self.stub[act[1]].q:
@@ -320,7 +347,20 @@ class World:
         action = script.pop(0)
         self.ctx.count("hook_actions_%s_%s" % (kind, action[0]))
         self.log.append(("hook", kind, idx, side) + action)
-        self.app((action[0], idx, side) + action[1:], in_hook=True)
+        if kind == "stop":
+            self.in_stop_hook.append((idx, side))
+            ia = self.in_adjust
+            if ia is not None and ia[:2] == (idx, side) and action[0] in ("write", "ext"):
+                self.stop_hook_wrote_in_adjust = True
+        try:
+            self.app((action[0], idx, side) + action[1:], in_hook=True)
+        finally:
+            if kind == "stop":
+                self.in_stop_hook.pop()
+
+    in_stop_hook = ()
+    stop_hook_sent = ()
+    stop_hook_wrote_in_adjust = False
 
     def app(self, act, in_hook=False):
         """One application call on a channel; the model records it at the moment it happens, so
@@ -425,10 +465,9 @@ def gen_case(rng):
 
 
 def gen_hooks(rng, sizes):
-    """Re-entrant application scripts: (channel, side, 'start'|'stop', action).  startWriting hooks
-    write normal / extended data or close (a producer that produces as soon as it is resumed);
-    stopWriting hooks only close: writing more from the 'stop writing' hint is not a use the
-    channel has to support (the window it would use is already spoken for)."""
+    """Re-entrant application scripts: (channel, side, 'start'|'stop', action).  Both hooks may write
+    normal / extended data or close (startWriting: a producer that produces as soon as it is resumed;
+    stopWriting: an application that flushes a last record when told to stop)."""
     hooks = []
     scale = min(rng.choice((3, 30, 300)), 40 * min(min(s[1], s[3]) for s in sizes))
     for idx in range(len(sizes)):
@@ -438,8 +477,11 @@ def gen_hooks(rng, sizes):
                     r = rng.random()
                     n = rng.choice((1, 2, 3, rng.randint(0, scale)))
                     hooks.append((idx, side, "start", ("write", n) if r < 0.5 else ("ext", rng.choice((1, 2)), n) if r < 0.8 else ("close",)))
-            if rng.random() < 0.2:
-                hooks.append((idx, side, "stop", ("close",)))
+            if rng.random() < 0.35:
+                for _ in range(rng.randint(1, 3)):
+                    r = rng.random()
+                    n = rng.choice((1, 2, 3, rng.randint(0, scale)))
+                    hooks.append((idx, side, "stop", ("write", n) if r < 0.4 else ("ext", rng.choice((1, 2)), n) if r < 0.8 else ("close",)))
     return hooks
 
 
